@@ -161,11 +161,21 @@ def gen_scenario(seed, tier="quick"):
                 p0 = rng.choice(prev)
                 S = list(p0["species"])
                 kind = p0["setkind"]
-                if rng.random() < 0.6:
+                rr = rng.random()
+                if rr < 0.4:
                     mode = "exclude" if p0["mode"] == "include" else "include"
-                else:
+                elif rr < 0.6:
                     mode = p0["mode"]
                     rng.shuffle(S)
+                elif rr < 0.8 and S:
+                    mode = p0["mode"]                      # a stricter/looser filter of the same mode: subset
+                    S = rng.sample(S, rng.randint(0, len(S) - 1))
+                    kind = "partial" if S else "empty"
+                else:
+                    mode = p0["mode"]                      # superset
+                    extra = [x for x in species if x not in S]
+                    S = S + rng.sample(extra, rng.randint(0, len(extra)))
+                    kind = "partial"
             name = "v%d" % nviews
             nviews += 1
             vop = {"op": "view", "name": name, "mode": mode, "species": S, "setkind": kind,
